@@ -73,9 +73,9 @@ theorem usdToGm_ok {usd pv sup m : Rat} (h : usdToGm (ratOps pw) usd pv sup = .o
   unfold usdToGm at h; exact fdiv_ok h
 
 /-- positive-impact part, as value: `mint × poolValue / supply = max 0 (capped impact)` -/
-theorem positiveImpactMint_ok {ps : Pool Rat} (_hp : PoolPos ps) {priceOut impact mint : Rat} {capped : Bool} (hpo : 0 < priceOut)
-    (h : positiveImpactMint (ratOps pw) ps priceOut impact = .ok (mint, capped)) :
-    mint = ps.supply * (if impact > 0 then min impact (ps.impactPool * priceOut) else 0) / ps.poolValue := by
+theorem positiveImpactMint_ok {ps : Pool Rat} (_hp : PoolPos ps) {priceOut impact pool mint : Rat} {capped : Bool} (hpo : 0 < priceOut)
+    (h : positiveImpactMint (ratOps pw) ps priceOut impact pool = .ok (mint, capped)) :
+    mint = ps.supply * (if impact > 0 then min impact (pool * priceOut) else 0) / ps.poolValue := by
   unfold positiveImpactMint at h
   by_cases hi : impact > 0
   · simp only [hi, if_true, bind_ok] at h ⊢
@@ -85,12 +85,12 @@ theorem positiveImpactMint_ok {ps : Pool Rat} (_hp : PoolPos ps) {priceOut impac
     simp only [pure, Except.pure, Except.ok.injEq, Prod.mk.injEq] at hpure
     rw [← hpure.1, hamt]
     simp only [hi, true_and, zero_add]
-    by_cases hc : impact / priceOut > ps.impactPool
+    by_cases hc : impact / priceOut > pool
     · simp only [hc, if_true]
-      have : ps.impactPool * priceOut < impact := by rwa [gt_iff_lt, lt_div_iff₀ hpo] at hc
+      have : pool * priceOut < impact := by rwa [gt_iff_lt, lt_div_iff₀ hpo] at hc
       rw [min_eq_right (le_of_lt this)]
     · simp only [hc, if_false]
-      have : impact ≤ ps.impactPool * priceOut := by rwa [gt_iff_lt, not_lt, div_le_iff₀ hpo] at hc
+      have : impact ≤ pool * priceOut := by rwa [gt_iff_lt, not_lt, div_le_iff₀ hpo] at hc
       rw [min_eq_left this]
       field_simp
   · simp only [hi, if_false, pure, Except.pure, Except.ok.injEq, Prod.mk.injEq] at h ⊢
@@ -120,11 +120,11 @@ theorem afterNegativeImpact_ok {ps : Pool Rat} {priceIn after impact after' : Ra
     exact ⟨by rw [h]; ring, fun hc => absurd hc (by simp)⟩
 
 /-- `calc_token_amount` as value per share: `mint × poolValue / supply = amount·(1 − fee factor)·priceIn + credited impact` -/
-theorem calcTokenAmount_ok {cfg : Config Rat} {ps : Pool Rat} (hp : PoolPos ps) {pin pout amount impact mint fee : Rat}
+theorem calcTokenAmount_ok {cfg : Config Rat} {ps : Pool Rat} (hp : PoolPos ps) {pin pout amount impact pool mint fee : Rat}
     {capped : Bool} (hpi : 0 < pin) (hpo : 0 < pout)
-    (h : calcTokenAmount (ratOps pw) cfg ps pin pout amount impact = .ok (mint, fee, capped)) :
+    (h : calcTokenAmount (ratOps pw) cfg ps pin pout amount impact pool = .ok (mint, fee, capped)) :
     fee = (if impact > 0 then cfg.depositFeePos else cfg.depositFeeNeg) * amount ∧
-    mint * (ps.poolValue / ps.supply) = (amount - fee) * pin + creditOf impact (ps.impactPool * pout) ∧
+    mint * (ps.poolValue / ps.supply) = (amount - fee) * pin + creditOf impact (pool * pout) ∧
     (impact < 0 → 0 ≤ (amount - fee) * pin + impact) := by
   unfold calcTokenAmount at h
   simp only [bind_ok] at h
@@ -161,13 +161,58 @@ theorem calcTokenAmount_ok {cfg : Config Rat} {ps : Pool Rat} (hp : PoolPos ps) 
       field_simp
     linarith
 
+/-- the amount (in units of the token it is paid in) a positive impact share takes out of what is left of the impact pool -/
+def paidOf (share priceOut pool : Rat) : Rat := if share > 0 then min (share / priceOut) pool else 0
+
+theorem paidOf_nonneg {share priceOut pool : Rat} (hpo : 0 < priceOut) (hp : 0 ≤ pool) : 0 ≤ paidOf share priceOut pool := by
+  unfold paidOf; split
+  · rename_i hs; exact le_min (le_of_lt (div_pos hs hpo)) hp
+  · exact le_refl _
+
+theorem paidOf_le_pool {share priceOut pool : Rat} (hp : 0 ≤ pool) : paidOf share priceOut pool ≤ pool := by
+  unfold paidOf; split
+  · exact min_le_right _ _
+  · exact hp
+
+/-- the credited value of a positive share is the amount taken from the pool at the price of the token paid -/
+theorem creditOf_eq_paid {share priceOut pool : Rat} (hpo : 0 < priceOut) (hs : 0 < share) :
+    creditOf share (pool * priceOut) = paidOf share priceOut pool * priceOut := by
+  unfold creditOf paidOf
+  rw [if_pos hs, if_pos hs]
+  by_cases hc : share / priceOut ≤ pool
+  · have : share ≤ pool * priceOut := by rwa [div_le_iff₀ hpo] at hc
+    rw [min_eq_left hc, min_eq_left this]; field_simp
+  · have hc' : pool < share / priceOut := not_le.mp hc
+    have : pool * priceOut < share := by rwa [lt_div_iff₀ hpo] at hc'
+    rw [min_eq_right (le_of_lt hc'), min_eq_right (le_of_lt this)]
+
+theorem poolLeft_ok {priceOut share pool left : Rat} (h : poolLeft (ratOps pw) priceOut share pool = .ok left) :
+    left = pool - paidOf share priceOut pool := by
+  unfold poolLeft at h
+  unfold paidOf
+  by_cases hs : share > 0
+  · simp only [hs, if_true, bind_ok] at h ⊢
+    obtain ⟨⟨amt, c⟩, ha, hpure⟩ := h
+    obtain ⟨_, hamt⟩ := impactAmountWithCap_ok ha
+    simp only [pure, Except.pure, Except.ok.injEq] at hpure
+    rw [← hpure, hamt]
+    simp only [hs, true_and]
+    by_cases hc : share / priceOut > pool
+    · simp only [hc, if_true]; rw [min_eq_right (le_of_lt hc)]
+    · simp only [hc, if_false]; rw [min_eq_left (not_lt.mp hc)]
+  · simp only [hs, if_false, pure, Except.pure, Except.ok.injEq] at h ⊢
+    rw [← h]; ring
+
 /-- value (in USD, at pool value per share) credited for one side of a deposit: amount after the deposit fee factor at
-    the token's price, plus its share of the price impact, a positive share capped by the impact pool -/
-def sideValue (cfg : Config Rat) (ps : Pool Rat) (amount priceIn priceOut share : Rat) : Rat :=
+    the token's price, plus its share of the price impact, a positive share capped by what is left of the impact pool (`pool`) -/
+def sideValue (cfg : Config Rat) (pool amount priceIn priceOut share : Rat) : Rat :=
   if amount > 0 then
     (amount - (if share > 0 then cfg.depositFeePos else cfg.depositFeeNeg) * amount) * priceIn
-      + creditOf share (ps.impactPool * priceOut)
+      + creditOf share (pool * priceOut)
   else 0
+
+/-- what one side leaves of the impact pool -/
+def sideLeft (pool amount priceOut share : Rat) : Rat := if amount > 0 then pool - paidOf share priceOut pool else pool
 
 /-- GM minted by one side (0 when the side is absent) -/
 def optMint : Option (Rat × Rat × Bool) → Rat
@@ -177,54 +222,57 @@ def optMint : Option (Rat × Rat × Bool) → Rat
 @[simp] theorem optMint_none : optMint none = 0 := rfl
 @[simp] theorem optMint_some (m f : Rat) (c : Bool) : optMint (some (m, f, c)) = m := rfl
 
-theorem sidePart_ok {cfg : Config Rat} {ps : Pool Rat} (hp : PoolPos ps) {pin pout amount usd total impact : Rat}
+theorem sidePart_ok {cfg : Config Rat} {ps : Pool Rat} (hp : PoolPos ps) {pin pout amount usd total impact pool left : Rat}
     {res : Option (Rat × Rat × Bool)} (hpi : 0 < pin) (hpo : 0 < pout)
-    (h : sidePart (ratOps pw) cfg ps pin pout amount usd total impact = .ok res) :
+    (h : sidePart (ratOps pw) cfg ps pin pout amount usd total impact pool = .ok (res, left)) :
     optMint res * (ps.poolValue / ps.supply)
-      = sideValue cfg ps amount pin pout (impact * usd / total) ∧
+      = sideValue cfg pool amount pin pout (impact * usd / total) ∧
+    left = sideLeft pool amount pout (impact * usd / total) ∧
     (amount > 0 → total ≠ 0) ∧ (res = none ↔ ¬ amount > 0) ∧
     (amount > 0 → impact * usd / total < 0 →
       0 ≤ (amount - (if impact * usd / total > 0 then cfg.depositFeePos else cfg.depositFeeNeg) * amount) * pin + impact * usd / total) := by
   unfold sidePart at h
-  unfold sideValue
+  unfold sideValue sideLeft
   by_cases ha : amount > 0
   · simp only [ha, if_true, bind_ok] at h ⊢
-    obtain ⟨share, hs, ⟨m, f, c⟩, hc, hpure⟩ := h
+    obtain ⟨share, hs, ⟨m, f, c⟩, hc, l, hl, hpure⟩ := h
     obtain ⟨hne, rfl⟩ := fdiv_ok hs
-    simp only [pure, Except.pure, Except.ok.injEq] at hpure
-    subst hpure
+    simp only [pure, Except.pure, Except.ok.injEq, Prod.mk.injEq] at hpure
+    obtain ⟨rfl, rfl⟩ := hpure
     obtain ⟨hf, hv, hnn⟩ := calcTokenAmount_ok hp hpi hpo hc
     simp only [optMint_some]
-    refine ⟨?_, fun _ => hne, by simp, fun _ hneg => ?_⟩
+    refine ⟨?_, poolLeft_ok hl, fun _ => hne, by simp, fun _ hneg => ?_⟩
     · rw [hv, hf]
     · have := hnn hneg; rw [hf] at this; exact this
-  · simp only [ha, if_false, pure, Except.pure, Except.ok.injEq] at h ⊢
-    subst h
+  · simp only [ha, if_false, pure, Except.pure, Except.ok.injEq, Prod.mk.injEq] at h ⊢
+    obtain ⟨rfl, rfl⟩ := h
     simp
 
-/-- `get_mint_amount` in closed form -/
+/-- `get_mint_amount` in closed form: the long side is capped by the impact pool, the short side by what the long side left -/
 theorem mintAmount_ok {cfg : Config Rat} {ps : Pool Rat} (hp : PoolPos ps) {la sa : Rat} {r : LPResult Rat} {tag : String}
     (h : mintAmount (ratOps pw) cfg ps la sa = .ok (r, tag)) :
     ∃ tag0, priceImpactUsd (ratOps pw) cfg ps (la * ps.longPrice) (sa * ps.shortPrice) = .ok (r.priceImpactUsd, tag0) ∧
       r.longAmount = la ∧ r.shortAmount = sa ∧ r.totalUsd = la * ps.longPrice + sa * ps.shortPrice ∧
       r.gmAmount * (ps.poolValue / ps.supply)
-        = sideValue cfg ps la ps.longPrice ps.shortPrice
+        = sideValue cfg ps.impactPool la ps.longPrice ps.shortPrice
             (r.priceImpactUsd * (la * ps.longPrice) / (la * ps.longPrice + sa * ps.shortPrice))
-        + sideValue cfg ps sa ps.shortPrice ps.longPrice
+        + sideValue cfg
+            (sideLeft ps.impactPool la ps.shortPrice (r.priceImpactUsd * (la * ps.longPrice) / (la * ps.longPrice + sa * ps.shortPrice)))
+            sa ps.shortPrice ps.longPrice
             (r.priceImpactUsd * (sa * ps.shortPrice) / (la * ps.longPrice + sa * ps.shortPrice)) ∧
       r.gmUsd = r.gmAmount * (ps.poolValue / ps.supply) ∧
       ((la > 0 ∨ sa > 0) → la * ps.longPrice + sa * ps.shortPrice ≠ 0) := by
   unfold mintAmount at h
   simp only [bind_ok] at h
-  obtain ⟨⟨impact, tag0⟩, himp, lp, hlp, sp, hsp, gp, hgp, hpure⟩ := h
-  obtain ⟨hl, hlne, _, _⟩ := sidePart_ok hp hp.longPrice hp.shortPrice hlp
-  obtain ⟨hs, hsne, _, _⟩ := sidePart_ok hp hp.shortPrice hp.longPrice hsp
+  obtain ⟨⟨impact, tag0⟩, himp, ⟨lp, left⟩, hlp, ⟨sp, left2⟩, hsp, gp, hgp, hpure⟩ := h
+  obtain ⟨hl, hleft, hlne, _, _⟩ := sidePart_ok hp hp.longPrice hp.shortPrice hlp
+  obtain ⟨hs, _, hsne, _, _⟩ := sidePart_ok hp hp.shortPrice hp.longPrice hsp
   obtain ⟨_, rfl⟩ := fdiv_ok hgp
   simp only [pure, Except.pure, Except.ok.injEq, Prod.mk.injEq] at hpure
   obtain ⟨rfl, _⟩ := hpure
   refine ⟨tag0, himp, rfl, rfl, rfl, ?_, rfl, ?_⟩
   · simp only []
-    rw [← hl, ← hs]
+    rw [← hleft, ← hl, ← hs]
     cases lp with
     | none => cases sp with
       | none => simp
